@@ -60,6 +60,7 @@ type OpInst struct {
 	PadTo     int
 	Barrier   int
 	BGroup    string
+	TouchIn   bool     // -touchin: the command re-writes its first input in place (same bytes, new mtime), like sort -o / an index update
 	BgTail    bool     // -bg: the last part of the first output is written by a child that outlives the command
 	Notes     []string // -note words: recorded, no influence on the result
 	StartStep int
@@ -731,6 +732,8 @@ func (sh *Shell) parseOp(r *shellRun, w []string) *OpInst {
 			o.BGroup = need()
 		case "-bg":
 			o.BgTail = true
+		case "-touchin":
+			o.TouchIn = true
 		case "-note":
 			// (the word may be empty and vanish: empty sub-stream)
 			if i+1 < len(w) && !strings.HasPrefix(w[i+1], "-") {
@@ -871,6 +874,15 @@ func (sh *Shell) runOp(r *shellRun, w []string) (int, string) {
 		return sh.finish(o, -1, "killed")
 	}
 	// write outputs
+	if o.TouchIn && len(o.Inputs) > 0 {
+		if n, err := fs.Lookup(r.cwd, o.Inputs[0]); err == nil && n.Kind == KFile {
+			if step("touch-in", o.Inputs[0]) {
+				return sh.finish(o, -1, "killed")
+			}
+			_, _, _, abs, _ := fs.walk(r.cwd, o.Inputs[0])
+			fs.WriteAt(n, abs, 0, append([]byte(nil), n.Data...))
+		}
+	}
 	omit := -1
 	if o.Fail == FailOmit && len(o.Outputs) > 0 {
 		omit = o.FailArg % len(o.Outputs)
